@@ -90,7 +90,7 @@ CHECKS = {
  "C16": {
   "level": "model_checking",
   "technique": "TLA+ Ideal of per-site cosmetic resources (Cosmetic!HideSelectors/Actions/Scripts over label-sequence host covering) enumerated by TLC over rule lists x page hosts; replayed on Engine::url_cosmetic_resources, also after a serialize/deserialize round trip",
-  "text": "TLC enumerates all lists of <=2 (quick) / <=3 rules from a 37-rule pool (hostnames, subdomains, entities, public-suffix-only locations, negations, negation-only rules, generic rules, #@# at the same, a deeper and a shallower level than the rule they cancel, :style/:remove/:remove-attr/:remove-class, +js with arguments, blanket +js exception, IDN locations in non-first position) against 13 page hosts (depths 1-3 under com, co.uk and an IDN suffix, look-alike hosts) with $generichide exceptions; hide selectors, exceptions, action filters (parsed JSON), injected scriptlet calls and the generichide flag are compared as sets.",
+  "text": "TLC enumerates all lists of <=2 (quick) / <=3 rules from a 37-rule pool (hostnames, subdomains, entities, public-suffix-only locations, negations, negation-only rules, generic rules, #@# at the same, a deeper and a shallower level than the rule they cancel, :style/:remove/:remove-attr/:remove-class, +js with arguments, blanket +js exception, IDN locations in non-first position) against 13 page hosts (depths 1-3 under com, co.uk and an IDN suffix, look-alike hosts) with $generichide exceptions; hide selectors, exceptions, action filters (parsed JSON), injected scriptlet calls and the generichide flag are compared as sets. The text side is covered by CosParse.tla (cosmetic line = locations # marker # body -> rule record or refusal: markers, generic unhide / scriptlet / action, double negation, AdGuard markers, location modifiers, regex locations, html filters, action arguments): all 3080 lines of 14 location texts x 11 markers x 20 bodies are parsed by the spec and replayed as one-line lists (accept / reject and per-site resources).",
   "note": TB + "The public-suffix list is modelled for the suffixes of the universe (com, net, co.uk, рф); C12 checks the real resolver. Procedural operators need the css-validation feature and are not covered. Identical-text exception semantics follow the statement ('minus everything excepted for that host').",
  },
  "C17": {
